@@ -181,6 +181,9 @@ func c02Prestate() (*verifFS, *refFS) {
 	add("/d/g", false, 3)
 	add("/e", true, 0)
 	add("/f", false, 0)
+	// a component name reused at a deeper level: "/e/d" is not below "/d"
+	add("/e/d", true, 0)
+	add("/e/d/k", false, 0)
 	if vm.Bool("tombstone") {
 		// a name that was used and deleted earlier
 		v.Env.AddEntry("/t", tar.TypeReg, 0, true, "")
